@@ -1,6 +1,7 @@
 import MaltModel.Proofs.C17Inst
 import MaltModel.Conv.TemplateHyp
 import MaltModel.Conv.SrcClass
+import MaltModel.Proofs.C17Roundtrip
 import MaltModel.Generated.Templates
 /-
 C17 — generated code is a well-formed tree that loads as what `to_code` shows.
@@ -323,5 +324,24 @@ example : Malt.Conv.SrcClass.appendInExprPosition
     (.expr 1 (.call 4 (.attr 5 (.name 6 "l" .load) "append" .load) [.name 7 "a" .load] [])) = false ∧
   Malt.Conv.SrcClass.hasStoreListDisplay
     (.assign 1 [.seq 2 .list [.name 3 "x" .store] .store] (.seq 4 .list [.name 5 "a" .load] .load)) = true := by decide
+
+/-! ## 6. serialisation -/
+
+/-- The reader/printer pair the C17 driver runs (`Conv/SexpTotal.lean`, same wire format as the shared, `partial`
+`Py/SexpAst.lean`) round-trips every tree it can represent faithfully (`printableS`: a `Set` display carries `.load`, an
+unnamed keyword the empty string).  Tree level only: the S-expression TEXT layer (tokeniser, escaping) and the Python
+side (harness/pyast.py) are covered by the round-trip self-test harness/selftest_ast.py and by the `c17.echo`
+comparison the check makes on every real tree, not by this theorem. -/
+theorem C17_roundtrip_model (t : Stmt) (h : Malt.Conv.SexpTotal.printableS t = true) :
+    Malt.Conv.SexpTotal.readS (Malt.Conv.SexpTotal.printS t) = some t :=
+  Malt.Conv.SexpTotal.readS_printS t h
+
+theorem C17_roundtrip_model_list (t : List Stmt) (h : Malt.Conv.SexpTotal.printableSs t = true) :
+    Malt.Conv.SexpTotal.readSs (Malt.Conv.SexpTotal.printSs t) = some t :=
+  Malt.Conv.SexpTotal.readSs_printSs t h
+
+example : Malt.Conv.SexpTotal.printableS
+    (.assign 1 [.seq 2 .tuple [.name 3 "x" .store, .starred 4 (.name 5 "y" .store) .store] .store]
+      (.call 6 (.name 7 "f" .load) [.seq 8 .set [.const 9 "int" "1"] .load] [.keyword 10 "" false (.name 11 "kw" .load)])) = true := by decide
 
 end Malt.Props.C17
